@@ -1169,7 +1169,8 @@ pub fn post_op(cx: &Ctx, b: &Built, op: &Op, s: &StepOut) {
         }
         Op::Breaker { sender } => {
             if s.tx.is_ok() {
-                claim(f, "C08:circuit breaker only for the admin or a monitor", matches!(sender, P::Admin | P::Monitor));
+                let a = who_addr(who, sender);
+                claim(f, "C08:circuit breaker only for the admin or a monitor", Some(a.clone()) == pre.admin || pre.cfg.monitors.iter().any(|m| m.as_str() == a));
                 let mut c = pre.cfg.clone();
                 c.stopped = true;
                 claim(f, "C10:halting changes nothing but the halted flag", c == post.cfg && raw_equal_except(&pre.raw, &post.raw, &[b"config"]));
